@@ -709,6 +709,16 @@ class PipelineSim(WorldBase):
             # an abandoned process would not keep handles open either:
             fs.open_handles.clear()
             # output files of an interrupted filter/combine are not inputs of anything later
+            if err is None and fn in ("buffet", "cache") and fired[0][1] != "abort":
+                # the write failed with an OSError and the call nevertheless returned numbers: a failed call may
+                # fail, it may not hand out wrong data as if nothing had happened
+                key = (a.get("id", "c0"), repr(sorted(a.get("bindings", []), key=repr)), a.get("cap_lines"),
+                       a.get("cap_frac"), a.get("line_elems"))
+                self.probe("call_returned_normally_despite_io_error")
+                if key in self.clean and self.clean[key] != res:
+                    self.V("C17", "C17.wrong-result-after-io-error", fn,
+                           f"file event {fired[0][0] if fired[0] else '?'} failed with an OSError ({fired[0]}), the call returned "
+                           f"{res} as if it had succeeded; the undisturbed call returns {self.clean[key]}")
             return out
         if a.get("fault_at"):
             self.probe("fault_armed_beyond_last_event")
